@@ -86,6 +86,10 @@ def run(tier, seed, replay):
                "XDG_CONFIG_HOME": ["/tmp", "/nonexistent", ""][k % 3],
                "LANG": ["C", "en_US.UTF-8", "tr_TR.UTF-8"][k % 3], "TZ": ["UTC", "Asia/Tokio", ""][k % 3],
                "RUST_BACKTRACE": str(k % 2), "W2W_NOISE_%d" % k: "x" * k}
+        if k % 4 == 1:
+            env["RUSTFMT"] = "/nonexistent/rustfmt"       # tool-selection variables other programs honour must not matter
+        elif k % 4 == 2:
+            env["RUSTFMT"] = "/bin/cat"
         cwd = ["/verif", "/", "/tmp", workdir][k % 4]
         variants.append((order, env, cwd))
     first, violations, broken, evals = None, [], [], 0
